@@ -28,13 +28,13 @@ CLAIMED = {
         "is 1 if x is a job else 0) proved preserved, for all tables and arguments, by every operation under contract: _clear_dead_jobs "
         "(removes exactly the finished jobs from both structures), get_next_job_number (lowest free number >= 1, with a termination "
         "variant), add_job, get_next_task, resume_job (fg/bg selection: no argument, +, -, number; errors leave the table alone; MRU "
-        "update keeps the order of the rest), bg, disown_fn (no argument or one number), jobs (the listing prints exactly the most-recently-used order after the finished jobs are purged: every live job once, "
+        "update keeps the order of the rest), fg (exactly one resume_job call with the wording `fg`), bg, disown_fn (no argument or one number), jobs (the listing prints exactly the most-recently-used order after the finished jobs are purged: every live job once, "
         "no finished one - loop invariant), plus the thread-view functions get_tasks / "
         "get_jobs / use_main_jobs (with-contract: body runs on the main table, previous view restored on normal and exceptional exit). "
         "The same contracts are evaluated natively on all tables over job numbers 1..3 as an engine cross-check.",
    note="Unverified: truly concurrent mutation (signal handler / second thread between two statements), the real process state behind "
         "poll() (ghost function, constant during a call), terminal hand-over in pipeline.resume, _continue/kill; disown with several ids "
-        "(outside the statement); records are owned by their table slot; `fg` itself is resume_job behind @unthreadable. "
+        "(outside the statement); records are owned by their table slot; "
         "Trusted: pyvc engine + library models (deque/dict/set) + z3/cvc5.",
    design="§3 C20"),
  "C15": dict(
@@ -261,7 +261,7 @@ CLAIMED = {
         "scandir), i.e. the same test as the lookup; clear_paths is resolve -> de-duplicate -> keep existing. The mtime-keyed CommandsCache behind `name in`, iteration and completion: _update_paths_cache (loop invariant): after it every "
         "stat-able $PATH directory has an entry whose recorded mtime EQUALS the directory's current one and whose listing is the current listing, reporting `no change` means nothing changed, the order "
         "is recorded; _update_aliases_cache records the hash of the current alias names; _update_and_check_changes runs BOTH updates whatever the first one says; update_cache hands out a table that is the "
-        "merge of the CURRENT listings, $PATH order and alias names - rebuilt whenever one of them changed, kept only when none did (callers checked against callee contracts). Every function on the lookup path carries a frame "
+        "merge of the CURRENT listings, $PATH order and alias names - rebuilt whenever one of them changed, kept only when none did (callers checked against callee contracts); `name in cache` and `cache[name]` refresh the table exactly once before they answer from it. Every function on the lookup path carries a frame "
         "clause `no result cache` (a memoised helper used on the path is a failed obligation). Bounded stand-in (not proved): all histories of 3 (thorough 4) "
         "operations out of 15 (create / delete / chmod / mkdir / symlink-to-dir / broken link, $PATH reorder / duplicate / missing / symlinked entry, re-pointing a "
         "symlinked entry) with locate_executable, `in`, the listing and locate_binary compared with an independent POSIX search after every step; 320 permission modes of a candidate against what the kernel answers for this process (os.access).",
